@@ -261,6 +261,33 @@ pub fn run(ctx: &Ctx) {
         ctx.bound(sub, "all ordered pairs of the 63-query alphabet, 24 environments each", true);
         ctx.sample(sub, json!({"input": "@media not screen and (a) { .p { @media screen and (b) { x: y } } }"}));
     }
+    if ctx.quick() {
+        // comma lists: every pair over a 16-query sub-alphabet (every 4th query) x every single query
+        let small: Vec<usize> = (0..qs.len()).step_by(4).collect();
+        let m = small.len() as u64;
+        for (sub, list_outer) in [("list2_outer.small", true), ("list2_inner.small", false)] {
+            par(
+                ctx,
+                sub,
+                m * m * n,
+                |i| json!({"list": [text(&qs[small[(i / (m * n)) as usize]]), text(&qs[small[((i / n) % m) as usize]])], "single": text(&qs[(i % n) as usize])}),
+                |i, l| {
+                    let (a, b, c) = (&qs[small[(i / (m * n)) as usize]], &qs[small[((i / n) % m) as usize]], &qs[(i % n) as usize]);
+                    if both_not_same(a, c) || both_not_same(b, c) {
+                        l.count("excluded_both_negated_same_type", 1);
+                        return;
+                    }
+                    if list_outer {
+                        check_case(ctx, sub, &[vec![a, b], vec![c]], l);
+                    } else {
+                        check_case(ctx, sub, &[vec![c], vec![a, b]], l);
+                    }
+                },
+            );
+            ctx.bound(sub, "all (list of 2 queries over a 16-query sub-alphabet) x (single query of the 63-query alphabet)", true);
+            ctx.sample(sub, json!({"input": "@media screen { .p { @media print, screen { x: y } } }"}));
+        }
+    }
     if ctx.thorough() {
         let sub = "triples";
         par(
